@@ -433,11 +433,22 @@ func GenEdCase(t *rapid.T) EdCase {
 			}
 		}
 	case 4:
-		c.PK = edFlipBit(t, pk, 0, 32, "fbit")
-		c.ModCls = "forged-key-bit"
+		if edW(t, "fsign", 2, 1) == 1 { // -A instead of A
+			c.PK = append([]byte(nil), pk...)
+			c.PK[31] ^= 0x80
+			c.ModCls = "forged-key-sign"
+		} else {
+			c.PK = edFlipBit(t, pk, 0, 32, "fbit")
+			c.ModCls = "forged-key-bit"
+		}
 	case 5:
-		sig = edFlipBit(t, sig, 0, 32, "fbit")
-		c.ModCls = "forged-R-bit"
+		if edW(t, "fsign", 2, 1) == 1 { // -R instead of R
+			sig[31] ^= 0x80
+			c.ModCls = "forged-R-sign"
+		} else {
+			sig = edFlipBit(t, sig, 0, 32, "fbit")
+			c.ModCls = "forged-R-bit"
+		}
 	case 6:
 		sig = edFlipBit(t, sig, 32, 64, "fbit")
 		c.ModCls = "forged-S-bit"
